@@ -1070,3 +1070,59 @@ Proof.
   destruct (lookup_account (d_validator d) m); cbn [fst snd] in *; [|left; exact Hr].
   destruct (e_sig_randao e); cbn [fst snd] in *; [discriminate|left; exact Hr].
 Qed.
+
+(* ------------------------------------------------------------------------------------------- *)
+(* the first full block wins *)
+
+Lemma retry_not_ok : forall o, is_retry o = true -> is_ok o = false.
+Proof. destruct o; cbn; congruence. Qed.
+
+Lemma plan_ok_delivery : forall dl n start script k cl,
+  nth_error (free_calls dl n start script) k = Some cl -> is_ok (k_out cl) = true ->
+  delivery (free_calls dl n start script) = Some (k_finish cl).
+Proof.
+  intros dl n; induction n as [|n IH]; intros start script k cl H Hok; cbn [free_calls] in *.
+  - destruct k; discriminate.
+  - unfold delivery in *.
+    destruct script as [|[l o] rest].
+    + destruct k as [|k]; cbn [nth_error] in H.
+      * injection H as <-. cbn in Hok. discriminate.
+      * cbn [is_retry] in *. cbn [find k_out is_ok]. apply (IH _ _ _ _ H Hok).
+    + destruct k as [|k]; cbn [nth_error] in H.
+      * injection H as <-. cbn [k_out] in Hok. cbn [find k_out]. rewrite Hok. reflexivity.
+      * destruct (is_retry o) eqn:Hr; [|destruct k; discriminate].
+        cbn [find k_out]. rewrite (retry_not_ok _ Hr). apply (IH _ _ _ _ H Hok).
+Qed.
+
+(* whatever is submitted for a blinded block is submitted at the instant of the earliest full-block
+   answer that any relay asked would give: no candidate relay would have answered with a block earlier *)
+Lemma first_full_block_wins : forall c e d pr t sp w a i rl k cl,
+  e_proposal e = POk pr -> p_blinded pr = true ->
+  o_submit (propose c e d) = Some (t, sp) ->
+  e_auction e = AOk w a -> In i (candidates c w a) ->
+  nth_error (e_relays e) i = Some rl -> r_can rl = true ->
+  nth_error (free_calls (e_deadline e) relay_tries 0 (r_script rl)) k = Some cl ->
+  is_ok (k_out cl) = true ->
+  t <= k_finish cl.
+Proof.
+  intros c e d pr t sp w a i rl k cl Hp Hbl Hsub Hau Hin Hrl Hcan Hk Hok.
+  destruct (sign_phase c e d) as [evs [[p sp0]|]] eqn:Hsp.
+  2:{ rewrite (propose_unsigned _ _ _ _ Hsp) in Hsub; discriminate. }
+  destruct (propose_signed _ _ _ _ _ _ Hsp) as (Heq & acct & h & sig & code & _ & _ & (Hp' & _) & _ & _ & _ & -> & _).
+  rewrite Hp in Hp'; injection Hp' as <-. rewrite Heq in Hsub.
+  destruct (deliver_phase_course c e evs (signed_proposal pr h sig code)) as [Hb|Hb _|w' a' res Hb Ha Hc plans fd _ _ _ Hs].
+  - cbn in Hb; congruence.
+  - discriminate.
+  - unfold auction_results in Ha. rewrite Hau in Ha. injection Ha as <- <-.
+    destruct fd as [t0|] eqn:Hfd; [|destruct Hs as (_ & Hs); congruence].
+    destruct (t0 <? e_deadline e); [|destruct Hs as (_ & Hs); congruence].
+    destruct Hs as (_ & Hs). destruct (full_container _); [|congruence].
+    rewrite Hs in Hsub; injection Hsub as <- _.
+    destruct (first_delivery_some plans t0 Hfd) as (_ & Hmin).
+    pose proof (plans_from_nth_some (e_deadline e) (candidates c w a) (e_relays e) 0%nat i rl Hrl) as Hplan.
+    cbn [Nat.add] in Hplan. fold plans in Hplan.
+    apply (Hmin i _ (k_finish cl) Hplan).
+    unfold relay_plan. assert (He : existsb (Nat.eqb i) (candidates c w a) = true)
+      by (apply existsb_exists; exists i; split; [exact Hin|apply Nat.eqb_refl]).
+    rewrite He, Hcan. cbn [andb]. eapply plan_ok_delivery; eauto.
+Qed.
